@@ -32,7 +32,7 @@ static cf_card* find_card(cf_hdu& h, const std::string& k){ for (int i = 0; i < 
 static void set_card(cf_hdu& h, const std::string& k, const std::string& v){ cf_card* c = find_card(h, k); if (c) { memset(c->val, 0, sizeof c->val); strncpy(c->val, v.c_str(), sizeof c->val - 1); } }
 static void drop_card(cf_hdu& h, const std::string& k){ for (int i = 0; i < h.ncards; i++) if (k == h.cards[i].key) { for (int j = i; j + 1 < h.ncards; j++) h.cards[j] = h.cards[j + 1]; h.ncards--; return; } }
 static int find_ext(cf_file* f, const std::string& nm){ for (int h = 1; h < f->nhdu; h++) { cf_card* c = find_card(f->hdu[h], "EXTNAME"); if (c && std::string(c->val).find(nm) != std::string::npos) return h; } return -1; }
-static void resize_ext(cf_file* f, int h, long n){ cf_hdu& x = f->hdu[h]; vr64* nd = (vr64*)calloc(n ? n : 1, sizeof(vr64)); for (long i = 0; i < n; i++) nd[i] = i < (long)x.ndata ? x.data[i] : x.data[x.ndata - 1]; free(x.data); x.data = nd; x.ndata = n; x.naxes[0] = n; set_card(x, "NAXIS1", std::to_string(n)); }
+static void resize_ext(cf_file* f, int h, long n){ cf_hdu& x = f->hdu[h]; vr64* nd = (vr64*)calloc(n ? n : 1, sizeof(vr64)); for (long i = 0; i < n; i++) nd[i] = i < (long)x.ndata ? x.data[i] : x.data[x.ndata - 1]; free(x.data); x.data = nd; x.ndata = n; x.nwritten = n; /* fits_resize_img extends the data unit: every pixel of the resized image can be read */ x.naxes[0] = n; set_card(x, "NAXIS1", std::to_string(n)); }
 static void drop_ext(cf_file* f, int h){ free(f->hdu[h].data); for (int j = h; j + 1 < f->nhdu; j++) f->hdu[j] = f->hdu[j + 1]; f->nhdu--; }
 
 // an empty table: what the default constructor builds (ndim == 0 alone is not enough: stale naux / aux break key lookups and a later fit)
@@ -160,7 +160,7 @@ int main(int argc, char** argv){
       else if (v == "order_plus1") set_card(p, "ORDER0", std::to_string(t.order[0] + 1));          // naxes != nknots - order - 1
       else if (v == "order_missing") drop_card(p, "ORDER0");
       else if (v == "naxis_small") { long a = p.naxes[nd - 1] - 1; p.naxes[nd - 1] = a; set_card(p, "NAXIS" + std::to_string(nd), std::to_string(a)); uint64_t n = 1; for (unsigned k = 0; k < nd; k++) n *= p.naxes[k]; p.ndata = n; }
-      else if (v == "naxis_large") { long a = p.naxes[nd - 1] + 2; p.naxes[nd - 1] = a; set_card(p, "NAXIS" + std::to_string(nd), std::to_string(a)); uint64_t n = 1; for (unsigned k = 0; k < nd; k++) n *= p.naxes[k]; vr64* nd_ = (vr64*)calloc(n, sizeof(vr64)); for (uint64_t i = 0; i < n; i++) nd_[i] = p.data[i % p.ndata]; free(p.data); p.data = nd_; p.ndata = n; }
+      else if (v == "naxis_large") { long a = p.naxes[nd - 1] + 2; p.naxes[nd - 1] = a; set_card(p, "NAXIS" + std::to_string(nd), std::to_string(a)); uint64_t n = 1; for (unsigned k = 0; k < nd; k++) n *= p.naxes[k]; vr64* nd_ = (vr64*)calloc(n, sizeof(vr64)); for (uint64_t i = 0; i < n; i++) nd_[i] = p.data[i % p.ndata]; free(p.data); p.data = nd_; p.ndata = n; p.nwritten = n; }
       else if (v == "knots_missing") drop_ext(f, find_ext(f, "KNOTS" + std::to_string(nd - 1)));
       else if (v == "knots_short") resize_ext(f, find_ext(f, "KNOTS0"), (long)t.nknots[0] - 1);
       else if (v == "knots_long") resize_ext(f, find_ext(f, "KNOTS0"), (long)t.nknots[0] + 2);
@@ -170,6 +170,7 @@ int main(int argc, char** argv){
       else if (v == "knots_ninf_first") { cf_hdu& h = f->hdu[find_ext(f, "KNOTS0")]; h.data[0] = vs_const_bits64(0xfff0000000000000ULL); }
       else if (v == "knots_pinf_last") { cf_hdu& h = f->hdu[find_ext(f, "KNOTS" + std::to_string(nd - 1))]; h.data[h.ndata - 1] = vs_const_bits64(0x7ff0000000000000ULL); }
       else if (v == "extents_short") resize_ext(f, find_ext(f, "EXTENTS"), 1);
+      else if (v == "extents_long") resize_ext(f, find_ext(f, "EXTENTS"), 2 * (long)nd + 100);       // more extents than dimensions: must not be read into the 2*ndim block
       else if (v == "foreign") { for (unsigned d = 0; d < nd; d++) drop_card(p, "ORDER" + std::to_string(d)); drop_card(p, "TYPE"); while (f->nhdu > 1) drop_ext(f, f->nhdu - 1); }
       else if (v == "naxis0") { p.naxis = 0; set_card(p, "NAXIS", "0"); }
       else vs_error("unknown corruption");
